@@ -201,10 +201,7 @@ def run(ctx):
 
     # ---------------- clause 5: CAST over the decoder ----------------------------------------------------
     ctx.rule('C03.5-cast', 'wire numbers are widened, never narrowed, except under a range guard', floor=3)
-    REVIEWED = {
-        're:erltf::decoder::parse_new_fun_ext(_borrowed)?:.*\\(i64->u32\\)(#\\d+)?':
-            'old_index / old_uniq: an Integer term is only ever produced by the decoder from SMALL_INTEGER_EXT (u8) or INTEGER_EXT (i32); with the `i >= 0` guard the value is in 0..=i32::MAX and fits u32',
-    }
+    REVIEWED = {}
     seen = set()
     for p in sorted(ctx.F.bodies):
         if p.startswith(DEC) and ctx.F.bodies[p]['kind'] in ('Fn', 'AssocFn', 'Closure'):
